@@ -237,7 +237,7 @@ def _differs(now, before, shared):
 
 
 def model_ops(rng, n):
-    kinds = ['load', 'convert', 'singularity', 'cmeta', 'addunit', 'addvar', 'transpile', 'rmvar', 'rule', 'print']
+    kinds = ['load', 'convert', 'singularity', 'cmeta', 'addunit', 'addvar', 'transpile', 'rmvar', 'rule', 'print', 'xconvert']
     return [[rng.choice(kinds), rng.randrange(3), rng.randrange(1000)] for _ in range(n)]
 
 
@@ -322,6 +322,26 @@ def apply_model_op(models, op, rng_seed, caller=None):
                 # the same rule registered again (e.g. to correct a constant): same value, so nothing observable changes
                 k2 = us.Quantity(2.0, den)
                 us.add_conversion_rule(us.get_unit(a), us.get_unit(b), lambda ureg, rhs: rhs / k2)
+        elif kind == 'xconvert':
+            # "units from both can still be converted into each other": a variable of this model, in its unit NAME, is
+            # converted into the unit another model calls NAME too (same dimension, another scale; shared registry only)
+            other = models[(idx + 1) % len(models)]
+            if caller is not None and other is not m:
+                name = 'xu%d' % salt
+                if not m.units.is_defined(name) and not other.units.is_defined(name):
+                    scale_m, scale_o = rng.sample(['1000', '1e-3', '1e-6', '60', '2.5'], 2)
+                    dim = rng.choice(['volt', 'second', 'mole / litre'])
+                    um = m.units.add_unit(name, '%s * %s' % (dim, scale_m))
+                    uo = other.units.add_unit(name, '%s * %s' % (dim, scale_o))
+                    v = m.add_variable('xvar$v%d' % salt, um, initial_value=5.0)
+                    want = float(scale_m) / float(scale_o)
+                    ret = m.convert_variable(v, uo, rng.choice([DataDirectionFlow.INPUT, DataDirectionFlow.OUTPUT]))
+                    got = None if ret is v else float(m.units.get_conversion_factor(v.units, ret.units)) if ret.units is not um else 1.0
+                    if ret is v or not m.units.is_equivalent(ret.units, uo) or not math.isclose(got, want, rel_tol=1e-9):
+                        return ('xconvert:XVIOLATION:convert_variable(%s [%s of model %d = %s %s], unit %s of model %d = %s %s) returned '
+                                '%s in %s; expected a new variable in the other model\'s unit (factor %r)'
+                                % (v.name, name, idx, scale_m, dim, name, (idx + 1) % len(models), scale_o, dim,
+                                   'the variable itself' if ret is v else ret.name, ret.units, want))
         elif kind == 'print':
             from cellmlmanip.printer import Printer
             Printer().doprint(m.equations[0]) if m.equations else None
@@ -358,6 +378,9 @@ def model_work(case):
     for j, op in enumerate(case['ops']):
         idx = op[1] % len(models)
         res = apply_model_op(models, op, case['seed'], caller)
+        if ':XVIOLATION:' in res:
+            res, msg = res.split(':XVIOLATION:', 1)
+            bad.append((msg, {'op_index': j}))
         hist.append(res)
         if caller is not None:
             now = store_probe(caller)
@@ -367,8 +390,9 @@ def model_work(case):
                             'unit_store=S): %s (was %r, now %r)' % (res, idx, ', '.join(diff), str(caller_snap[diff[0]])[:200],
                                                                     str(now[diff[0]])[:200]), {'op_index': j, 'changed': diff}))
                 caller_snap = now
+        touched = {idx} | ({(idx + 1) % len(models)} if op[0] == 'xconvert' else set())   # xconvert defines a unit in both
         for t in range(len(models)):
-            if t == idx:
+            if t in touched:
                 snaps[t] = snapshot(models[t])
                 continue
             now = snapshot(models[t])
